@@ -42,13 +42,32 @@ pub fn c02_books(_m: &mut Mon, ctx: &StepCtx, stats: &mut Stats, out: &mut Vec<V
     };
     let o = ctx.out.unwrap();
     let d_post = ctx.post_w.total_delegated(HUB);
-    // 1. stored books never exceed delegations after a pricing operation
+    // 1. stored books never exceed delegations after a pricing operation: at the end of the
+    //    transaction, and right after each pricing handler inside it (its own staking messages
+    //    counted as executed), so that a later nested CheckSlashing cannot hide an excess
     if o.calls.iter().any(is_pricing_call) {
         stats.check("c02_books_le_delegated");
         if let Some(r) = &post.raw {
             let booked = r.total_bond_bsei_amount.u128() + r.total_bond_stsei_amount.u128();
             if booked > d_post {
                 viol(out, "C02", "booked_stake_le_delegated", ctx.idx, "hub:books_exceed_delegations", format!("after {:?}: stored bSei pool {} + stSei pool {} = {} > delegated {}", ctx.top(), r.total_bond_bsei_amount, r.total_bond_stsei_amount, booked, d_post));
+            }
+        }
+        for c in o.calls.iter().filter(|c| c.ok && is_pricing_call(c)) {
+            let g = |k: &str| c.attr(k).and_then(|v| v.parse::<u128>().ok());
+            if let (Some(bb), Some(bs), Some(d)) = (g("sim:books_b"), g("sim:books_s"), g("sim:delegated")) {
+                let mut d_eff = d;
+                for k in o.children(c.idx) {
+                    match &k.msg {
+                        MsgRec::Delegate { amount, .. } => d_eff += amount,
+                        MsgRec::Undelegate { amount, .. } => d_eff = d_eff.saturating_sub(*amount),
+                        _ => {}
+                    }
+                }
+                stats.check("c02_books_le_delegated_in_tx");
+                if bb + bs > d_eff {
+                    viol(out, "C02", "booked_stake_le_delegated", ctx.idx, "hub:books_exceed_delegations_in_tx", format!("right after {:?}: stored pools {} + {} exceed the delegated {} (own staking messages included)", c.exec().map(|e| e.1), bb, bs, d_eff));
+                }
             }
         }
     }
@@ -87,6 +106,15 @@ pub fn c02_books(_m: &mut Mon, ctx: &StepCtx, stats: &mut Stats, out: &mut Vec<V
             stats.check("c02_unbond_book_delta");
             if b_pre.checked_sub(und) != Some(b_post) {
                 viol(out, "C02", "undelegation_removed_from_books_exactly", ctx.idx, "hub.unbond:book_delta", format!("books {} -> {} but undelegated {}", b_pre, b_post, und));
+            }
+            // per pool: each pool gives up exactly what its own requests are worth
+            if post.history.len() == pre.history.len() + 1 {
+                let h = &post.history[post.history.len() - 1];
+                let ub = mul_rate(h.bsei_amount.u128(), atomics(h.bsei_applied_exchange_rate)).unwrap_or(0);
+                let us = mul_rate(h.stsei_amount.u128(), atomics(h.stsei_applied_exchange_rate)).unwrap_or(0);
+                if ps.total_bond_bsei_amount.u128().checked_sub(ub) != Some(qs.total_bond_bsei_amount.u128()) || ps.total_bond_stsei_amount.u128().checked_sub(us) != Some(qs.total_bond_stsei_amount.u128()) {
+                    viol(out, "C02", "each_pool_gives_up_its_own_undelegation", ctx.idx, "hub.unbond:pool_delta", format!("pools ({},{}) -> ({},{}) but the batch undelegated {} for bSei and {} for stSei", ps.total_bond_bsei_amount, ps.total_bond_stsei_amount, qs.total_bond_bsei_amount, qs.total_bond_stsei_amount, ub, us));
+                }
             }
         }
     }
@@ -191,6 +219,20 @@ pub fn c03_rates(_m: &mut Mon, ctx: &StepCtx, stats: &mut Stats, out: &mut Vec<V
             }
         }
         _ => {}
+    }
+    // a closing batch is priced at backing / (supply + requests) of that very moment
+    if let Some(post) = &ctx.post.hub {
+        if post.history.len() == pre.history.len() + 1 {
+            let h = &post.history[post.history.len() - 1];
+            if let (Some(tb), Some(ts)) = (ctx.post.t(Tok::B), ctx.post.t(Tok::St)) {
+                stats.check("c03_batch_priced_at_current_rate");
+                let eb = rate_of(ps.total_bond_bsei_amount.u128(), tb.supply + h.bsei_amount.u128());
+                let es = rate_of(ps.total_bond_stsei_amount.u128(), ts.supply + h.stsei_amount.u128());
+                if eb != Some(atomics(h.bsei_applied_exchange_rate)) || es != Some(atomics(h.stsei_applied_exchange_rate)) {
+                    viol(out, "C03", "batch_undelegated_at_current_rate", ctx.idx, "hub.process_undelegations:applied_rate", format!("batch {} applied rates ({}, {}) but backing/(supply+requests) = ({:?}, {:?})", h.batch_id, h.bsei_applied_exchange_rate, h.stsei_applied_exchange_rate, eb.map(dec), es.map(dec)));
+                }
+            }
+        }
     }
     for r in hub_receives(ctx) {
         let tok = match r.token {
